@@ -50,9 +50,10 @@
 //            Option::copied, Vec::{extend, retain}
 //   plus env/broadcast_model.vs (key model of the index types).  env/add_path_shim.vs copies (files that cannot be
 //   included next to env/spawn_vehicle_shim.vs / env/sched_guard_shim.vs, or slices): `ins_pos` + `lemma_ins_unique`
-//   (env/override_reassign_shim.vs), `lemma_first_pos` and the depot-admission vocabulary `Depot::sp_capacity_for`,
-//   `Network::{has_depot, sp_depot, sp_depot_idx_of}`, `spawned_of_type`, `spawned_counts`, `spawned_total`
-//   (slices/admission.vs), `lemma_isum_remove` (env/depot_usage_shim.vs).  env/remove_lemmas.vs + env/insert_lemmas.vs (the
+//   (env/override_reassign_shim.vs), `lemma_first_pos` (slices/admission.vs), `lemma_isum_remove` (env/depot_usage_shim.vs); the
+//   depot-admission vocabulary `Depot::sp_capacity_for`, `Network::{has_depot, sp_depot, sp_depot_idx_of}`, `spawned_of_type`,
+//   `spawned_counts`, `spawned_total` (text of slices/admission.vs) now comes from env/spawn_vehicle_shim.vs (last block; one
+//   definition for spawn_vehicle, add_path, dummy_ops, sched_ctor).  env/remove_lemmas.vs + env/insert_lemmas.vs (the
 //   vocabulary of insert_path's contract) are included in a module of their own (`cut`): in the root module the
 //   unrelated lemma_remove_dhd exceeded the resource limit.
 //
